@@ -369,6 +369,7 @@ def run(ctx, rep):
     rule_funnel(ctx, rep)
     from . import c10 as _c10
 
+    _c10.rule_thick(ctx, rep)  # ... and reads that length from the very block it re-fattens (a prefix type whose `data` field sits elsewhere reads another word)
     _c10.rule_prot_mut(ctx, rep)  # a thin handle destroys (and frees) as many elements as the recorded length says: nothing lets safe code change it
     from . import c11 as _c11
 
